@@ -138,4 +138,18 @@ theorem check_implies_nothing_left (finished : List String) (s : St) (h : retent
 /-- non-vacuity -/
 example : (removeProc ⟨["p1", "p2"], [⟨"p1:$", "p1"⟩, ⟨"p2:$", "p2"⟩, ⟨"p1:a", "p1"⟩], [("m1", "p1")]⟩ "p1").tasks = [⟨"p2:$", "p2"⟩] := by decide
 
+/-- **kept rows are in terminal states** (every row set): when the check on the kept rows passes, every task row of every settled process
+is in a terminal state -/
+theorem check_implies_kept_rows_terminal (settled : List String) (rows : List (String × Bool)) (h : keptRowsCheck settled rows = none) :
+    ∀ r ∈ rows, r.1 ∈ settled → r.2 = true := by
+  intro r hr hs
+  simp only [keptRowsCheck, Option.map_eq_none_iff] at h
+  have := List.find?_eq_none.mp h r hr
+  cases hb : r.2
+  · simp [hb, hs] at this
+  · rfl
+
+/-- non-vacuity: an aborted, kept process one of whose acts was left waiting is found -/
+example : keptRowsCheck ["p0"] [("p0", true), ("p0", false), ("p1", false)] = some "p0" ∧ keptRowsCheck ["p0"] [("p0", true), ("p1", false)] = none := by decide
+
 end Acts.C17
